@@ -48,7 +48,9 @@ def run(ctx):
         future = v["cert"] == "valid-only-after-signing"
         x = {"id": i, "chain": chain_short if short else (chain_future if future else chain_valid), "key": sp8 if short else (fp8 if future else lp8), "alg": "es256",
              "sign_settings": {"verify": {"verify_after_sign": False, "verify_trust": False}},
-             "reads": [{"name": "r", "settings": {"trust": {"trust_anchors": both if v["anchoring"] == "anchored" else only_signer}, "verify": {"verify_trust": True, "verify_timestamp_trust": True}}}]}
+             # two readers: the signer's root among the system anchors (trust_anchors) and among the user anchors -- the verdict is the same
+             "reads": [{"name": "system", "settings": {"trust": {"trust_anchors": both if v["anchoring"] == "anchored" else only_signer}, "verify": {"verify_trust": True, "verify_timestamp_trust": True}}},
+                       {"name": "user", "settings": {"trust": dict({"user_anchors": only_signer}, **({"trust_anchors": open(trc).read()} if v["anchoring"] == "anchored" else {})), "verify": {"verify_trust": True, "verify_timestamp_trust": True}}}]}
         if future:
             x["decoy"] = True      # the signer's own validity test sees a conforming chain first (C06's device): the SDK refuses to sign with a certificate that is not valid yet
         if v["token"] == "present":
@@ -78,41 +80,43 @@ def run(ctx):
         raise ToolError("pki-run returned %d results for %d vectors" % (len(outs), len(vecs)))
     for i, v in enumerate(vecs):
         o = outs[i]
-        key = "%s:%s:%s:%s:%s%s" % (v["token"], v["imprint"], v["sig"], v["anchoring"], v["cert"], "" if v["tsaAlg"] == "supported" else ":tsa-sha1")
+        key0 = key = "%s:%s:%s:%s:%s%s" % (v["token"], v["imprint"], v["sig"], v["anchoring"], v["cert"], "" if v["tsaAlg"] == "supported" else ":tsa-sha1")
         case = {"vector": v, "result": o}
         if o.get("panic"):
             ctx.violation("panic", "panic with a time-stamp token: %s" % o["panic"], case)
             continue
         if o.get("sign") != "ok":
             raise ToolError("signing failed for %s: %s %s" % (key, o.get("sign"), o.get("detail")))
-        read = o["reads"][0]["read"]
-        if "active" not in read:
-            if v["verdict"] == "accepted":
-                ctx.violation("unreadable:%s" % key, "asset cannot be read: %s" % read, case)
-            continue
-        codes = {c[1] for c in read["active"]}
-        ts_problem = {c for c in codes if c.startswith("timeStamp.") and c not in ("timeStamp.validated", "timeStamp.trusted")}
-        state = read.get("state")
-        has_time = read.get("time") is not None
-        if has_time != v["usable"]:
-            ctx.violation("signing-time:%s:%s" % ("taken-from-unusable-token" if has_time else "missing-with-usable-token", key), "token usable=%s but a signing time is %sreported (%s)" % (v["usable"], "" if has_time else "not ", read.get("time")), case)
-        if v["reported"] and not ts_problem:
-            ctx.violation("token-problem-not-reported:%s" % key, "an unusable token (%s) produces no time-stamp status" % key, case)
-        if v["usable"] and "timeStamp.validated" not in codes:
-            ctx.violation("usable-token-not-validated:%s" % key, "a matching, correctly signed token is not reported as validated: %s" % sorted(codes), case)
-        expired_flag = "signingCredential.expired" in codes
-        if v["verdict"] == "not-valid":
-            if state in ("Valid", "Trusted"):
-                ctx.violation("expired-accepted-without-usable-token:%s" % key, "the signing certificate expired and no usable token covers the signing, yet the manifest is %s" % state, case)
-        elif v["verdict"] == "not-trusted":
-            if state == "Trusted":
-                ctx.violation("trusted-outside-validity:%s" % key, "a usable token of an anchored TSA places the signing before the certificate's validity began, yet the credential is reported Trusted", case)
-        elif v["verdict"] == "accepted":
-            # (the signer's root is among the configured anchors in every run: acceptance means Trusted)
-            if expired_flag or state != "Trusted":
-                ctx.violation("accepted-case-rejected:%s" % key, "expected acceptance (certificate %s, token usable=%s) but state is %s, failures %s" % (v["cert"], v["usable"], state, sorted(c[1] for c in read["active"] if c[0] == "failure")), case)
-        if v["usable"] and v["anchoring"] == "anchored" and "timeStamp.trusted" not in codes:
-            ctx.drift_note("Timestamp", "anchored TSA not reported as timeStamp.trusted for %s" % key)
+        for rdi, rdx in enumerate(o["reads"]):
+            read = rdx["read"]
+            key = key0 + ":" + rdx["name"]
+            if "active" not in read:
+                if v["verdict"] == "accepted":
+                    ctx.violation("unreadable:%s" % key, "asset cannot be read: %s" % read, case)
+                continue
+            codes = {c[1] for c in read["active"]}
+            ts_problem = {c for c in codes if c.startswith("timeStamp.") and c not in ("timeStamp.validated", "timeStamp.trusted")}
+            state = read.get("state")
+            has_time = read.get("time") is not None
+            if has_time != v["usable"]:
+                ctx.violation("signing-time:%s:%s" % ("taken-from-unusable-token" if has_time else "missing-with-usable-token", key), "token usable=%s but a signing time is %sreported (%s)" % (v["usable"], "" if has_time else "not ", read.get("time")), case)
+            if v["reported"] and not ts_problem:
+                ctx.violation("token-problem-not-reported:%s" % key, "an unusable token (%s) produces no time-stamp status" % key, case)
+            if v["usable"] and "timeStamp.validated" not in codes:
+                ctx.violation("usable-token-not-validated:%s" % key, "a matching, correctly signed token is not reported as validated: %s" % sorted(codes), case)
+            expired_flag = "signingCredential.expired" in codes
+            if v["verdict"] == "not-valid":
+                if state in ("Valid", "Trusted"):
+                    ctx.violation("expired-accepted-without-usable-token:%s" % key, "the signing certificate expired and no usable token covers the signing, yet the manifest is %s" % state, case)
+            elif v["verdict"] == "not-trusted":
+                if state == "Trusted":
+                    ctx.violation("trusted-outside-validity:%s" % key, "a usable token of an anchored TSA places the signing before the certificate's validity began, yet the credential is reported Trusted", case)
+            elif v["verdict"] == "accepted":
+                # (the signer's root is among the configured anchors in every run: acceptance means Trusted)
+                if expired_flag or state != "Trusted":
+                    ctx.violation("accepted-case-rejected:%s" % key, "expected acceptance (certificate %s, token usable=%s) but state is %s, failures %s" % (v["cert"], v["usable"], state, sorted(c[1] for c in read["active"] if c[0] == "failure")), case)
+            if v["usable"] and v["anchoring"] == "anchored" and "timeStamp.trusted" not in codes:
+                ctx.drift_note("Timestamp", "anchored TSA not reported as timeStamp.trusted for %s" % key)
     ctx.cov["traces_validated_against_impl"] += len(vecs)
     ctx.cov["evaluations"] = len(vecs)
     ctx.cov["distinct_nontrivial"] = sum(1 for v in vecs if v["cert"] != "valid")
